@@ -132,3 +132,37 @@ Proof.
     + unfold no_seek_tell. rewrite forallb_forall in *. intros o Ho. specialize (A6 o Ho). now destruct o.
     + exact A7.
 Qed.
+
+(* ------------------------------------------------------------------------------------ *)
+(* the point format does not depend on the access path (Model/Access.v, section "the point format a header shows")       *)
+(* ------------------------------------------------------------------------------------ *)
+Theorem format_ignores_evlrs : forall rh ev, format_of (with_evlrs rh ev) = format_of rh.
+Proof. reflexivity. Qed.
+
+Lemma opened_header_format c e f rh rh1 : opened_header c e f rh = Ok rh1 -> format_of rh1 = format_of rh.
+Proof.
+  unfold opened_header. destruct (loads_at_open c e rh).
+  - destruct (evlrs_of f rh); intros H; inversion H; subst. apply format_ignores_evlrs.
+  - intros H; inversion H; subst. reflexivity.
+Qed.
+
+(* at every moment and through every access path the header shows the point format the file's own header and VLRs give:
+   right after laspy.open (EVLRs loaded or left for read()), after the reader was consumed without read(), when everything
+   is read, through the memory map - also when the EVLRs hold a record of the Extra Bytes type *)
+Theorem format_path_independent : forall f rh, laid_out f rh ->
+  (forall c e rh1, fst (open_via c e f) = Ok rh1 -> format_of rh1 = format_of rh)
+  /\ (forall c e steps lf, fst (consume_via c e steps f) = Ok lf -> format_of (lf_h lf) = format_of rh)
+  /\ (forall c e steps lf, (can_seek c = true \/ evlrs_after_points rh) -> fst (read_via c e steps f) = Ok lf -> format_of (lf_h lf) = format_of rh)
+  /\ (forall lf, (h_minor rh >= 4 -> h_nev rh > 0 -> h_evstart rh <= len f) -> read_mmap f = Ok lf -> format_of (lf_h lf) = format_of rh).
+Proof.
+  intros f rh Hlo.
+  assert (Hfile : forall lf, read_file f = Ok lf -> format_of (lf_h lf) = format_of rh).
+  { intros lf H. destruct (before_read f rh [] Hlo) as (m & R & _ & Hr & _). rewrite Hr in H.
+    destruct (evlrs_of f rh); inversion H; subst. apply format_ignores_evlrs. }
+  split; [|split; [|split]].
+  - intros c e rh1 H. rewrite (open_stage f rh c e Hlo) in H. exact (opened_header_format c e f rh rh1 H).
+  - intros c e steps lf H. destruct (before_read f rh steps Hlo) as (m & R & _ & _ & Hc). rewrite Hc in H.
+    destruct (opened_header c e f rh) as [rh1|er] eqn:E; inversion H; subst. exact (opened_header_format c e f rh rh1 E).
+  - intros c e steps lf Hcase H. rewrite (read_via_spec_gap c e steps f rh Hlo Hcase) in H. exact (Hfile lf H).
+  - intros lf Hin H. rewrite (read_mmap_spec f rh Hlo Hin) in H. exact (Hfile lf H).
+Qed.
